@@ -287,6 +287,24 @@ func genClass(r *mon.RNG, o *GenOpts) *RX {
 func Gen(r *mon.RNG, o *GenOpts) *RX {
 	for tries := 0; ; tries++ {
 		x := gen(r, o, o.MaxDepth)
+		if o.MaxDepth > 0 && r.Chance(1, 8) {
+			// a top-level alternation, not wrapped in a group by the author; the first
+			// branch may carry the author's own ^ ("^let|var")
+			a, b := gen(r, o, o.MaxDepth-1), gen(r, o, o.MaxDepth-1)
+			for _, k := range []**RX{&a, &b} {
+				if (*k).Op == "alt" {
+					*k = &RX{Op: "grp", Kids: []*RX{*k}}
+				}
+			}
+			if o.Anchors && r.Bool() {
+				if a.Op == "cat" {
+					a = &RX{Op: "cat", Kids: append([]*RX{{Op: "bol"}}, a.Kids...)}
+				} else {
+					a = &RX{Op: "cat", Kids: []*RX{{Op: "bol"}, a}}
+				}
+			}
+			x = &RX{Op: "alt", Kids: []*RX{a, b}}
+		}
 		if o.NoNullable && x.Nullable() {
 			if tries > 20 {
 				return &RX{Op: "lit", Lit: "a"}
